@@ -1294,19 +1294,18 @@ def moveaxis_from_front(a, axis):
 
 
 def flip(a, axis=None):
+    """numpy.flip returns a *view*: the result shares the buffer (writes through it reach the original)"""
     a = asarray(a)
     if a.ndim == 1:
         if a.n is not None:
             raise Unsupported("flip varlen")
-        return SArr.new(list(reversed(a.flat_list())), a.shape_cap, None, a.dtype)
+        return SArr(a.buf, list(reversed(a.offs)), a.shape_cap, None, a.dtype)
     if a.ndim == 2 and axis in (1, -1):
         r, c = a.shape_cap
-        fl = a.flat_list()
-        return SArr.new([fl[i * c + (c - 1 - j)] for i in range(r) for j in range(c)], a.shape_cap, a.n, a.dtype)
+        return SArr(a.buf, [a.offs[i * c + (c - 1 - j)] for i in range(r) for j in range(c)], a.shape_cap, a.n, a.dtype)
     if a.ndim == 2 and axis == 0 and a.n is None:
         r, c = a.shape_cap
-        fl = a.flat_list()
-        return SArr.new([fl[(r - 1 - i) * c + j] for i in range(r) for j in range(c)], a.shape_cap, None, a.dtype)
+        return SArr(a.buf, [a.offs[(r - 1 - i) * c + j] for i in range(r) for j in range(c)], a.shape_cap, None, a.dtype)
     raise Unsupported("flip nd")
 
 
@@ -2046,10 +2045,19 @@ def _uf1(name, pyf):
         TRIG_LOG.append((name, _real(v), t))
         return mk(t)
     def g(a, dtype=None, out=None):
-        if out is not None:
-            raise Unsupported('ufunc out=')
-        return _unary(a, f, float64)
+        r = _unary(a, f, float64)
+        return _ufunc_out(r, out)
     return g
+
+
+def _ufunc_out(r, out):
+    if out is None:
+        return r
+    if not isinstance(out, SArr) or not isinstance(r, SArr) or out.shape_cap != r.shape_cap:
+        raise Unsupported("ufunc out= with mismatching operands")
+    for o, v in zip(out.offs, r.flat_list()):
+        out.buf[o] = _cast_in(v, out.dtype)
+    return out
 
 
 sin = _uf1("sin", math.sin)
@@ -2072,12 +2080,12 @@ def arctan2(y, x, dtype=None):
     return _binary(y, x, f, float64)
 
 
-def deg2rad(a):
-    return _unary(a, lambda v: mk(_real(v) * sc.lift(PI_Q) / 180) if isinstance(v, Sym) else math.radians(v), float64)
+def deg2rad(a, out=None, dtype=None):
+    return _ufunc_out(_unary(a, lambda v: mk(_real(v) * sc.lift(PI_Q) / 180) if isinstance(v, Sym) else math.radians(v), float64), out)
 
 
-def rad2deg(a):
-    return _unary(a, lambda v: mk(_real(v) * 180 / sc.lift(PI_Q)) if isinstance(v, Sym) else math.degrees(v), float64)
+def rad2deg(a, out=None, dtype=None):
+    return _ufunc_out(_unary(a, lambda v: mk(_real(v) * 180 / sc.lift(PI_Q)) if isinstance(v, Sym) else math.degrees(v), float64), out)
 
 
 radians, degrees = deg2rad, rad2deg
